@@ -100,11 +100,16 @@ class Function:
         if "cfg" in j:
             from . import flow
             self.cfg = flow.CFG(self, j["cfg"])
+        self.maskdefs = {}
         self.flagdefs = self._find_flagdefs()
         if self.flagdefs:
             for n in walk(self.body):
                 if n.get("k") == "ref" and n.get("d") in self.flagdefs:
                     n["flagdef"] = self.flagdefs[n["d"]]
+        if self.maskdefs:
+            for n in walk(self.body):
+                if n.get("k") == "ref" and n.get("d") in self.maskdefs:
+                    n["maskdef"] = self.maskdefs[n["d"]]
 
     def _find_flagdefs(self):
         """{local: condition} for a flag local that holds the truth of a condition: written exactly once, outside any loop,
@@ -150,7 +155,10 @@ class Function:
                 c = c["ch"][0]
             if c is None:
                 continue
-            if c.get("k") == "cond":
+            mask = self._mask_terms(c)
+            if mask is not None:
+                pass            # (c1 ? K1 : 0) | (c2 ? K2 : 0) ..: a mask local; the same stability conditions as for a flag
+            elif c.get("k") == "cond":
                 tv, fv = c["ch"][1], c["ch"][2]
                 while tv is not None and tv.get("k") in ("paren", "icast", "cast"):
                     tv = tv["ch"][0]
@@ -214,9 +222,47 @@ class Function:
                     if not reads_ptr and (cal or "?") in LIBC_NO_GLOBAL_EFFECT:
                         continue
                     ok = False
-            if ok:
+            if ok and mask is not None:
+                self.maskdefs[d] = mask
+            elif ok:
                 out[d] = c
         return out
+
+    @staticmethod
+    def _mask_terms(c):
+        """[(condition, K)] when c is (c1 ? K1 : 0) | (c2 ? K2 : 0) [| ...] (or + instead of |) with non-zero constants whose
+        bits are pairwise disjoint, else None: each bit of the value then is the truth of one condition"""
+        def unwrap(x):
+            while x is not None and x.get("k") in ("paren", "icast", "cast"):
+                x = x["ch"][0]
+            return x
+        terms = []
+
+        def go(x):
+            x = unwrap(x)
+            if x is None:
+                return False
+            if x.get("k") == "bin" and x.get("op") in ("|", "+"):
+                return go(x["ch"][0]) and go(x["ch"][1])
+            if x.get("k") == "cond":
+                tv, fv = unwrap(x["ch"][1]), unwrap(x["ch"][2])
+                if tv is None or fv is None or tv.get("cv") is None or fv.get("cv") is None:
+                    return False
+                if fv["cv"] == 0 and tv["cv"] > 0:
+                    terms.append((x["ch"][0], tv["cv"]))
+                    return True
+                if tv["cv"] == 0 and fv["cv"] > 0:
+                    terms.append(({"k": "un", "op": "!", "ch": [x["ch"][0]], "i": x["i"], "t": "int", "tw": 32, "ts": 1}, fv["cv"]))
+                    return True
+            return False
+        if c.get("k") != "bin" or not go(c) or len(terms) < 2:
+            return None
+        acc = 0
+        for _, kv in terms:
+            if acc & kv:
+                return None
+            acc |= kv
+        return terms
 
     def param_index(self, declid):
         for i, p in enumerate(self.params):
